@@ -77,6 +77,20 @@ def fock_prob(mu, V, pattern):
     return float(val.real)
 
 
+def pure_gbs_prob(A, pattern):
+    """Textbook GBS formula for the pure state |psi> ~ exp(a^dag A a^dag / 2)|0>:
+    p(n) = |haf(A_n)|^2 / n! * sqrt(det(1 - A A^*)).  Exact zeros of A stay exact zeros of the probability."""
+    A = np.asarray(A)
+    pattern = [int(x) for x in pattern]
+    idx = [i for i, c in enumerate(pattern) for _ in range(c)]
+    h = loop_hafnian(A[np.ix_(idx, idx)], np.zeros(len(idx)))
+    fact = 1.0
+    for c in pattern:
+        fact *= math.factorial(c)
+    norm = np.sqrt(np.real(np.linalg.det(np.eye(len(A)) - A @ np.conj(A))))
+    return float(abs(h) ** 2 / fact * norm)
+
+
 def photon_pgf(mu, V, z):
     """<z^N> for the total photon number N of the state (all modes)."""
     V = np.asarray(V, dtype=float)
